@@ -56,6 +56,35 @@ template<class G> void run_alg(const std::string &alg, Toks &t, int scale, std::
     else throw std::runtime_error("bad alg");
     out << " RET " << exact_weight(ret, scale);
     print_cycles(out, c, cycles);
+    // the same call the way another caller may make it: the weights in an EXTERNAL property map (the interior edge_weight property holds decoys,
+    // in reversed order) and the cycles written through a POSITIONAL output iterator into pre-sized storage.  The result may legitimately consist of
+    // other equally light cycles, but the returned value, the number of cycles written and their weight under the caller's map must be the same.
+    {
+        typedef typename boost::property_traits<decltype(wm)>::value_type W;
+        typedef std::map<Edge, W> Store;
+        Store store; W mx = W();
+        for (auto &e : c.edges) { store[e] = boost::get(wm, e); if (mx < store[e]) mx = store[e]; }
+        for (auto &e : c.edges) boost::put(wm, e, mx + 1 - store[e]);                 // decoys (positive, order reversed)
+        boost::associative_property_map<Store> xm(store);
+        std::vector<std::list<Edge>> slots(cycles.size() + 2);
+        W ret2;
+        try {
+            if (alg == "signed") ret2 = parmcb::mcb_sva_signed(c.g, xm, slots.begin());
+            else if (alg == "fvs") ret2 = parmcb::mcb_sva_fvs_trees(c.g, xm, slots.begin());
+            else ret2 = parmcb::mcb_sva_iso_trees(c.g, xm, slots.begin());
+        } catch (...) { for (auto &e : c.edges) boost::put(wm, e, store[e]); throw; }
+        for (auto &e : c.edges) boost::put(wm, e, store[e]);                          // restore the interior property
+        size_t written = 0; W tot = W();
+        for (size_t i = 0; i < slots.size(); i++) {
+            if (slots[i].empty()) continue;
+            if (i != written) throw std::runtime_error("external weight map + positional output iterator: slot " + std::to_string(i) + " written, slot " + std::to_string(written) + " left empty");
+            written++;
+            for (auto &e : slots[i]) { if (c.id(e) == (size_t) -1) throw std::runtime_error("external weight map + positional output iterator: a returned edge is not an edge of the caller's graph"); tot = tot + store[e]; }
+        }
+        if (written != cycles.size()) throw std::runtime_error("external weight map + positional output iterator: " + std::to_string(written) + " cycles written, " + std::to_string(cycles.size()) + " through back_inserter with the interior map");
+        if (!(ret2 == ret)) throw std::runtime_error("external weight map + positional output iterator: returned value " + exact_weight(ret2, scale) + " differs from " + exact_weight(ret, scale) + " (interior map, back_inserter)");
+        if (!(tot == ret2)) throw std::runtime_error("external weight map + positional output iterator: the written cycles weigh " + exact_weight(tot, scale) + " under the caller's map, returned " + exact_weight(ret2, scale));
+    }
     if (tree_variant) {
         auto after = trees_oracles(alg, c);
         if (after.second.size() != before.second.size()) throw std::runtime_error("re-run of the builder yields a different number of candidates");
